@@ -12,40 +12,40 @@ Local Open Scope Z_scope.
    caller's buffer, file unchanged — every alignment 2^k, every offset <= size, every length, every
    buffer mis-alignment, with or without align_memory *)
 Theorem aligned_pread_refines : forall k am f b off,
-  aligned_guard k off (zlen (sg_data b)) -> alloc_fails (2 ^ k) am = false -> off <= zlen f ->
+  aligned_guard k off (zlen (sg_data b)) -> off <= zlen f ->
   let res := al_pread (2 ^ k) am f b off in
   let d := f_pread f (zlen (sg_data b)) off in
   rs_ret res = zlen d /\ rs_bufs res = [overwrite (sg_data b) 0 d] /\
   rs_files res = [f] /\ Forall (ev_aligned (2 ^ k) am) (rs_trace res).
-Proof. exact al_pread_refines. Qed.
+Proof. exact al_pread_refines_l. Qed.
 Print Assumptions aligned_pread_refines.
 
 (* pwrite: count, resulting content AND size equal the plain file's — every offset >= 0 (inside, at
    and beyond EOF), un-aligned on either or both ends *)
 Theorem aligned_pwrite_refines : forall k am f b off,
-  aligned_guard k off (zlen (sg_data b)) -> alloc_fails (2 ^ k) am = false ->
+  aligned_guard k off (zlen (sg_data b)) ->
   let res := al_pwrite (2 ^ k) am f b off in
   rs_ret res = zlen (sg_data b) /\ rs_bufs res = [sg_data b] /\
   rs_files res = [f_pwrite f (sg_data b) off] /\ Forall (ev_aligned (2 ^ k) am) (rs_trace res).
-Proof. exact al_pwrite_refines. Qed.
+Proof. exact al_pwrite_refines_l. Qed.
 Print Assumptions aligned_pwrite_refines.
 
 (* vectored variants, every iovec segmentation (zero-length elements included) *)
 Theorem aligned_preadv_refines : forall k am f segs off,
-  aligned_guard k off (sum_len segs) -> alloc_fails (2 ^ k) am = false -> off <= zlen f ->
+  aligned_guard k off (sum_len segs) -> off <= zlen f ->
   let res := al_preadv (2 ^ k) am f segs off in
   let d := f_pread f (sum_len segs) off in
   rs_ret res = zlen d /\ rs_bufs res = scatter (map sg_data segs) d /\
   rs_files res = [f] /\ Forall (ev_aligned (2 ^ k) am) (rs_trace res).
-Proof. exact al_preadv_refines. Qed.
+Proof. exact al_preadv_refines_l. Qed.
 Print Assumptions aligned_preadv_refines.
 
 Theorem aligned_pwritev_refines : forall k am f segs off,
-  aligned_guard k off (sum_len segs) -> alloc_fails (2 ^ k) am = false ->
+  aligned_guard k off (sum_len segs) ->
   let res := al_pwritev (2 ^ k) am f segs off in
   rs_ret res = sum_len segs /\ rs_bufs res = map sg_data segs /\
   rs_files res = [f_pwrite f (gather segs) off] /\ Forall (ev_aligned (2 ^ k) am) (rs_trace res).
-Proof. exact al_pwritev_refines. Qed.
+Proof. exact al_pwritev_refines_l. Qed.
 Print Assumptions aligned_pwritev_refines.
 
 (* every pread/pwrite/preadv/pwritev the adaptor issues to the underlay has offset and length
@@ -58,15 +58,14 @@ Print Assumptions aligned_calls_aligned.
 
 (* any sequence of pread/pwrite/preadv/pwritev/fstat/ftruncate: same observations (return values and
    buffers) and same final content and size as the same sequence on a plain file; all requests aligned *)
-Theorem ops_refine_plain : forall k am, alloc_fails (2 ^ k) am = false -> forall ops f, ops_ok k f ops ->
+Theorem ops_refine_plain : forall k am ops f, ops_ok k f ops ->
   map observe (fst (run_ops (AdAligned (2 ^ k) am) [f] ops)) = fst (ref_run f ops) /\
   snd (run_ops (AdAligned (2 ^ k) am) [f] ops) = [snd (ref_run f ops)] /\
   Forall (trace_aligned k am) (fst (run_ops (AdAligned (2 ^ k) am) [f] ops)).
-Proof. exact ops_refine_plain_l. Qed.
+Proof. exact ops_refine_plain_l2. Qed.
 Print Assumptions ops_refine_plain.
 
-Example aligned_guard_nonvacuous :
-  aligned_guard 9 1000 5000 /\ alloc_fails (2 ^ 9) true = false /\ alloc_fails (2 ^ 2) false = false.
+Example aligned_guard_nonvacuous : aligned_guard 9 1000 5000 /\ aligned_guard 2 1 2 /\ aligned_guard 0 0 1.
 Proof. exact guard_ex. Qed.
 
 Example ops_ok_nonvacuous :
@@ -76,10 +75,3 @@ Example ops_ok_nonvacuous :
      OPwrite (mkSeg 0 [31; 32]) 13; OPread (mkSeg 0 [0; 0; 0; 0]) 15].
 Proof. exact ops_ok_ex. Qed.
 
-(* finding `memalign`: align_memory with alignment 4 (< sizeof(void* )): an in-range pread fails *)
-Theorem aligned_small_alignment_refuted :
-  let f := [1; 2; 3; 4; 5] in let b := mkSeg 0 [204; 204] in
-  aligned_guard 2 1 (zlen (sg_data b)) /\ 1 < zlen f /\ alloc_fails (2 ^ 2) true = true /\
-  rs_ret (al_pread (2 ^ 2) true f b 1) = -1 /\ zlen (f_pread f (zlen (sg_data b)) 1) = 2.
-Proof. exact small_alignment_refuted_l. Qed.
-Print Assumptions aligned_small_alignment_refuted.
